@@ -201,7 +201,10 @@ class _MCQuad(torch.autograd.Function):
                     pout = log_pfcn(x, *pparams)
             # derivative of fparams
             dLdthetaf = []
-            if len(ftensor_params) > 0:
+            if len(ftensor_params) > 0 and not fout.requires_grad:
+                # no tensor reaches the integrand at all
+                dLdthetaf = tuple(torch.zeros_like(p) for p in ftensor_params)
+            elif len(ftensor_params) > 0:
                 dLdthetaf = torch.autograd.grad(fout, ftensor_params,
                                                 grad_outputs=grad_epf,
                                                 retain_graph=True,
@@ -211,7 +214,9 @@ class _MCQuad(torch.autograd.Function):
                 dLdthetaf = tuple(torch.zeros_like(p) if g is None else g for g, p in zip(dLdthetaf, ftensor_params))
             # derivative of pparams
             dLdthetap = []
-            if len(ptensor_params) > 0:
+            if len(ptensor_params) > 0 and not pout.requires_grad:
+                dLdthetap = tuple(torch.zeros_like(p) for p in ptensor_params)
+            elif len(ptensor_params) > 0:
                 dLdef = torch.dot((fout - epf).reshape(-1), grad_epf.reshape(-1))
                 dLdthetap = torch.autograd.grad(pout, ptensor_params,
                                                 grad_outputs=dLdef.reshape(pout.shape),
